@@ -210,23 +210,27 @@ USER_TEMPLATE = ("\n\n\n// {{ T.full_name }}\n"
 
 
 def shape_inputs(iid, shape):
-    """The namespace shape of a model record as real DSDL.  shape: {"types": [{"ns": [..], "k": k}...], "user": index|0}.
-    The `user` type is a union over every other type (as a field or as an array element); the other types alternate between
-    a delimited structure, a structure with a variable-length array and a one-field structure (the combinations for which
-    PyDSDL's lazily computed bit-length caches of a dependency are filled differently by the dependant and by the
-    dependency itself)."""
+    """The namespace shape of a model record as real DSDL.  shape: {"types": [{"ns": [..], "k": k}...] in rank order,
+    "user": index|0, "dep": none|star|chain}.  Dependencies as in GenRepro.tla: star = the `user` type has a field of every
+    other type; chain = `user` and then the other types in rank order each have a field of the next one, the last link
+    being a delimited structure (whose bit-length caches PyDSDL fills lazily)."""
     types = shape["types"]
+    u = shape["user"]
+    chain = ([u] + [j for j in range(1, len(types) + 1) if j != u]) if shape.get("dep") == "chain" else []
+
+    def ref(j):
+        return "%s.T%d.1.0" % (ns_dotted(types[j - 1]["ns"]), types[j - 1]["k"])
+
     files = {}
     for i, t in enumerate(types, 1):
         rel = "in/%s/T%d.1.0.dsdl" % (ns_dir(t["ns"]), t["k"])
         lines = ["# type %d of the shape" % i]
-        if i == shape["user"]:
-            lines += ["@union", "uint8 z", "uint16 y"]
-            for j, d in enumerate(types, 1):
-                if j != i:
-                    ref = "%s.T%d.1.0" % (ns_dotted(d["ns"]), d["k"])
-                    lines.append("%s[<=2] e%d" % (ref, j) if j % 3 == 2 else "%s d%d" % (ref, j))
-            lines.append("@sealed")
+        if chain and chain.index(i) + 1 < len(chain):
+            lines += ["uint8 a%d" % i, "%s next" % ref(chain[chain.index(i) + 1]), "@sealed"]
+        elif chain:
+            lines += ["int13 v%d" % i, "void3", "@extent 64"]
+        elif shape.get("dep") == "star" and i == u:
+            lines += ["%s d%d" % (ref(j), j) for j in range(1, len(types) + 1) if j != u] + ["uint8 tail%d" % i, "@sealed"]
         else:
             lines += [["int13 v%d" % i, "void3", "@extent 64"], ["float16[<=3] w%d" % i, "uint8 x", "@sealed"], ["uint8 x%d" % i, "@sealed"]][i % 3]
         files[rel] = "\n".join(lines) + "\n"
@@ -975,7 +979,7 @@ def model_stimuli(ctx, camp, wit, orders):
         if g in ("gzip_mtime", "ns_time", "model_abspath", "assert_abspath"):
             amb_w.setdefault((g, w["lang"], tuple(sorted(w["dims"]))), collections.OrderedDict()).setdefault(sk, w)
         elif not w["dims"]:
-            ord_w.setdefault((g, w["lang"]), collections.OrderedDict()).setdefault(sk, w)
+            ord_w.setdefault((g, w["lang"], w["shape"]["dep"]), collections.OrderedDict()).setdefault(sk, w)
     specs, expect = [], []
     shape_inputs_cache = {}
 
@@ -1014,9 +1018,9 @@ def model_stimuli(ctx, camp, wit, orders):
     n_amb = sum(len(p[2]) for p in pairs.values())
     # (b) order-borne gates: PYTHONHASHSEED 0..K
     seeds = list(range(1, ctx.pick(5, 12)))
-    per = ctx.pick(3, 40)
+    per = ctx.pick(2, 25)
     order_pairs = collections.OrderedDict()
-    for (g, lang), shapes in ord_w.items():
+    for (g, lang, _dep), shapes in ord_w.items():
         sks = sorted(shapes, key=lambda s: (-len(json.loads(s)["types"]), s))
         step = max(1, len(sks) // per)
         for sk in sks[::step][:per]:
@@ -1210,7 +1214,7 @@ def run(ctx):
                        "fixed + seeded random namespace sets x 4 targets x CLI/API option sets x ambient variants (clock+TZ, hash seed, fresh "
                        "subprocess / plain `python -m nunavut` / long-lived worker / the check's interpreter, cwd, relative spelling, three "
                        "absolute locations of different length, output elsewhere); distinct = (front end, target, options, input set[, gates]); "
-                       "non-trivial = every pair is run under at least 3 ambient states" % (ctx.pick(3, 40), ctx.pick(4, 11)))
+                       "non-trivial = every pair is run under at least 3 ambient states" % (ctx.pick(2, 25), ctx.pick(4, 11)))
     ctx.cov["exhaustive"] = False
     ctx.assumptions += [
         "TLC and the GenReproP / GenRepro / GenReproTrace specifications",
